@@ -39,17 +39,20 @@ def run(chk, replay=None):
     rots = [np.asarray(r).tolist() for r in rots]
     cases = [
         (("real", "jpsi_ksp_sigma", "helicity"), ["none", "axis", "dpd1"]),
-        (("real", "jpsi_3pi_rho", "helicity"), ["none", "dpd2"]),
-        (("real", "jpsi_ksp_two", "helicity"), ["none", "axis"] + (["dpd1"] if tier == "thorough" else [])),
+        (("real", "jpsi_3pi_rho", "helicity"), ["none", "dpd2", "axis"]),
+        (("real", "jpsi_ksp_two", "helicity"), ["none", "axis", "dpd1"]),
+        (("real", "lc_pkpi", "helicity"), ["axis"]),
         (("real", "jpsi_gpp_f2", "canonical-helicity"), ["none"]),
+        # one topology whose chains are symmetrised over the two pi0: (01)2 + (02)1 summed coherently
+        (("real", "jpsi_gpp_omega_all", "helicity"), ["none"]),
     ]
     if tier == "thorough":
         cases += [
             (("real", "jpsi_3pi_rho0", "helicity"), ["none", "axis", "dpd1", "dpd3"]),
-            (("real", "jpsi_3pi_rho", "helicity"), ["axis", "dpd1", "dpd3"]),
+            (("real", "jpsi_3pi_rho", "helicity"), ["dpd1", "dpd3"]),
             (("real", "jpsi_ksp_sigma", "canonical-helicity"), ["none", "dpd2"]),
             (("real", "d0_kskk", "helicity"), ["none", "dpd1"]),
-            (("real", "lc_pkpi", "helicity"), ["none", "axis"]),
+            (("real", "lc_pkpi", "helicity"), ["none"]),
             (("real", "jpsi_4body", "helicity"), ["none"]),
         ]
     # synthetic four-body cascade / two-resonance single-topology reactions
